@@ -270,6 +270,7 @@ def units(tier):
         Unit("random-weighted", check, strategy=lambda: cases(10, ["wu", "wd"]), examples=(4000, 160000), shards=(8, 16)),
         Unit("random-signed", check, strategy=lambda: cases(10, ["sign"]), examples=(2000, 80000), shards=(8, 16)),
         Unit("random-n<=40", check, strategy=lambda: cases(40, ["wu", "bd", "bu", "wd"]), examples=(320, 3200), shards=(16, 16)),
+        Unit("random-n>512", check, strategy=lambda: cases(700, ["bu", "wu"], nmin=513), examples=(16, 64), shards=(8, 16)),
         Unit("random-n>100", check, strategy=lambda: cases(130, ["wu", "bu", "wd", "bd", "wu"], nmin=101), examples=(160, 800), shards=(16, 16)),
     ]
     if tier == "thorough":
